@@ -27,7 +27,7 @@ CHECKS = {
        "and unscaled) exhaustively; every transition's path is replayed on the real runtime-context manager through the exported API and "
        "the projected state compared; the model's invariants (BudgetConservation, SoftWithinHard, FlagsMonotone, UsedBelowKill, "
        "ChargedToParent, StatusTruth, Exact) are evaluated on every transition and hold for the real manager because its state equals the model's",
-  note="bounded: depth<=3-4 contexts, 2-3 nested CallContext, limits/amounts from a 4-bit lattice; time limits not modelled; TLC and the JSON bridge trusted",
+  note="bounded: depth<=3-4 contexts, 2-3 nested CallContext, limits/amounts from a 4-bit lattice; time limits (Millis) driven by a virtual clock through the verif hook VerifNowHook, API level only (clock steps {4,9} ms, limits {0,10} ms, the real CPU threshold 10000); TLC and the JSON bridge trusted",
   technique="TLA+ spec Quota.tla, TLC exhaustive BFS, per-transition replay on the real API (direction A)"),
  "C08": dict(
   level="model_checking", ref="5 C08",
@@ -227,7 +227,7 @@ def main():
     json.dump(m, open(os.path.join(HERE, "MANIFEST.json"), "w"), indent=1)
     print("MANIFEST.json: %d checks, %d not_applicable" % (len(checks), len(na)))
 
-HOOK_COMMITS = ["e5967ad", "aaa007e", "dae7e5f"]
+HOOK_COMMITS = ["e5967ad", "aaa007e", "dae7e5f", "4bd7a1b"]
 
 if __name__ == "__main__":
     main()
